@@ -85,6 +85,13 @@ CHECKS["C14"] = dict(
     note="Bounded claim (depth K). Trusted: VHDL-subset semantics, ghost model, z3. Delayed (tx/rx delay) clock-domain-crossing configurations are not covered; reading Stack.front while empty is excluded (documented as undefined).",
     technique="bounded model checking (z3) of interpreted emitted VHDL against a ghost sequence model",
 )
+CHECKS["C15"] = dict(
+    category="model_checking",
+    text="Two-process (and one-process) wrapper entities around std.SyncFlag and std.Mailbox[Unsigned[2]] with tx/rx delays in 0..2 are unrolled K=14 (quick) / 24 (thorough) clocks from power-up; the producer's attempt, the consumer's readiness, the payload and the context reset are symbolic at every clock. z3 proves the hand-over monitor at every clock: a set/send issued while the producer observes clear is observed by the consumer exactly once (no duplicate or phantom receive), payloads arrive unmodified and in order, a set while set has no effect, the producer observes clear again only after the consumer cleared; plus bounded progress when both sides are always willing.",
+    design_ref="DESIGN.md 3/C15, 2.6",
+    note="Bounded claim (depth K), both contexts on one clock (relative timing is varied through the symbolic per-clock willingness and the configured delays). Trusted: VHDL-subset semantics, monitors, z3.",
+    technique="bounded model checking (z3) of interpreted emitted VHDL with ghost monitors",
+)
 NA = {}
 manifest = {
     "version": 1,
